@@ -176,6 +176,15 @@ func Run(sc *uw.Scenario) *simkit.Outcome {
 		if dsts[dst] == nil {
 			dsts[dst] = &dstState{m: model.NewUWModel(dst, sc.Allow), valid: true}
 		}
+		if ar.Wipe {
+			// the caller empties the destination between two calls
+			simkit.ForceRemoveAll(strings.TrimRight(dst, "/"))
+			syscall.Umask(0o022)
+			os.MkdirAll(strings.TrimRight(dst, "/"), 0o755)
+			syscall.Umask(sc.Umask)
+			dsts[dst] = &dstState{m: model.NewUWModel(dst, sc.Allow), valid: true}
+			out.Probe("destination-wiped-between-calls")
+		}
 		ds := dsts[dst]
 		m := ds.m
 		modelValid := ds.valid
